@@ -162,6 +162,13 @@ pub(super) mod udp {
         }
     }
 
+    #[cfg(feature = "verif-hooks")]
+    impl<const N: usize> DatagramPacketCodec<'_, N> {
+        pub(in crate::client::shadowsocks) fn verif_session_mut(&mut self, f: impl FnOnce(&mut Session<N>)) {
+            f(&mut self.session)
+        }
+    }
+
     impl<const N: usize> Encoder<DatagramPacket> for DatagramPacketCodec<'_, N> {
         type Error = anyhow::Error;
 
@@ -202,6 +209,22 @@ pub(super) mod udp {
                 }
             }
         }
+    }
+}
+
+#[cfg(feature = "verif-hooks")]
+impl<const N: usize> udp::DatagramPacketCodec<'_, N> {
+    /// verification hook: put the session's ids at chosen values (to reach the end of the packet-id
+    /// space, or to give two sessions the same id); no production code calls this
+    pub fn verif_set_ids(&mut self, client_session_id: Option<u64>, packet_id: Option<u64>) {
+        self.verif_session_mut(|s| {
+            if let Some(v) = client_session_id {
+                s.client_session_id = v;
+            }
+            if let Some(v) = packet_id {
+                s.packet_id = v;
+            }
+        })
     }
 }
 
